@@ -129,6 +129,26 @@ type zipuEntry struct {
 	name    string
 	decl    uint64
 	content []byte
+	// mode bits written into the header's external attributes, independently of the name:
+	// 0 none (archive/zip default), d directory, s symlink, i named pipe, p setuid+sticky 0777, z explicit zero mode, f 0644
+	mode byte
+}
+
+func zipuSetMode(fh *zip.FileHeader, m byte) {
+	switch m {
+	case 'd':
+		fh.SetMode(os.ModeDir | 0o755)
+	case 's':
+		fh.SetMode(os.ModeSymlink | 0o777)
+	case 'i':
+		fh.SetMode(os.ModeNamedPipe | 0o644)
+	case 'p':
+		fh.SetMode(os.ModeSetuid | os.ModeSticky | 0o777)
+	case 'z':
+		fh.SetMode(0)
+	case 'f':
+		fh.SetMode(0o644)
+	}
 }
 
 func zipuEntriesTok(es []zipuEntry) string {
@@ -138,6 +158,9 @@ func zipuEntriesTok(es []zipuEntry) string {
 	out := make([]string, len(es))
 	for i, e := range es {
 		out[i] = hx(e.name) + ":" + strconv.FormatUint(e.decl, 10) + ":" + hx(string(e.content))
+		if e.mode != 0 {
+			out[i] += ":" + string(e.mode)
+		}
 	}
 	return strings.Join(out, ",")
 }
@@ -149,14 +172,18 @@ func zipuParseEntries(s string) []zipuEntry {
 	var out []zipuEntry
 	for _, tok := range strings.Split(s, ",") {
 		p := strings.Split(tok, ":")
-		if len(p) != 3 {
+		if len(p) != 3 && !(len(p) == 4 && len(p[3]) == 1) {
 			panic("bad entry token " + tok)
 		}
 		d, err := strconv.ParseUint(p[1], 10, 64)
 		if err != nil {
 			panic("bad size " + p[1])
 		}
-		out = append(out, zipuEntry{unhx(p[0]), d, []byte(unhx(p[2]))})
+		e := zipuEntry{name: unhx(p[0]), decl: d, content: []byte(unhx(p[2]))}
+		if len(p) == 4 {
+			e.mode = p[3][0]
+		}
+		out = append(out, e)
 	}
 	return out
 }
@@ -169,6 +196,7 @@ func zipuBuildArchive(es []zipuEntry) ([]byte, error) {
 	for _, e := range es {
 		fh := &zip.FileHeader{Name: e.name, Method: zip.Store, CRC32: crc32.ChecksumIEEE(e.content),
 			CompressedSize64: uint64(len(e.content)), UncompressedSize64: e.decl}
+		zipuSetMode(fh, e.mode)
 		w, err := zw.CreateRaw(fh)
 		if err != nil {
 			return nil, err
@@ -196,8 +224,29 @@ func zipuWorkRoot() string {
 	return "/verif/work"
 }
 
+// zipuSweep removes scratch directories left behind by processes that no longer exist (a killed run).
+func zipuSweep() {
+	ds, _ := filepath.Glob(filepath.Join(zipuWorkRoot(), "ziptmp-*-*"))
+	for _, d := range ds {
+		parts := strings.Split(filepath.Base(d), "-")
+		if len(parts) != 3 {
+			continue
+		}
+		pid, err := strconv.Atoi(parts[1])
+		if err != nil || pid == os.Getpid() {
+			continue
+		}
+		if _, err := os.Stat(fmt.Sprintf("/proc/%d", pid)); os.IsNotExist(err) {
+			os.RemoveAll(d)
+		}
+	}
+}
+
 func zipuTemp() string {
 	n := atomic.AddInt64(&zipuCounter, 1)
+	if n == 1 {
+		zipuSweep()
+	}
 	d := filepath.Join(zipuWorkRoot(), fmt.Sprintf("ziptmp-%d-%d", os.Getpid(), n))
 	if err := os.MkdirAll(d, 0o755); err != nil {
 		panic(err)
